@@ -757,4 +757,196 @@ theorem C16_password_change_ends_sessions (n : Net) (y : Nat) (u old new : Strin
       · rename_i hnone; rw [hnone] at hl; cases hl
 
 
+/-! ### inactivity time-out -/
+
+theorem timeoutRemote_noSession (m : Net) (y : Nat) (s : RSession) (a : Node) (ha : (timeoutRemote m y s).node y = some a) :
+    a.hasSession s.id = false := by
+  have key : ∀ a1, (m.upd y (fun nd => (nd.dropSession s.id).dropConn s.id)).node y = some a1 → a1.hasSession s.id = false := by
+    intro a1 h1
+    simp only [node_upd, if_true] at h1
+    cases h : m.node y with
+    | none => rw [h] at h1; cases h1
+    | some a0 =>
+      rw [h] at h1; simp only [Option.map_some, Option.some.injEq] at h1; subst h1
+      exact dropSession_noSession a0 s.id
+  unfold timeoutRemote at ha
+  dsimp only at ha
+  split at ha
+  · obtain ⟨a1, ha1, hs⟩ := (shr_upd _ s.peer _ (shr_dropConn s.id)).back ha
+    exact noSession_of_shr hs _ (key a1 ha1)
+  · exact key a ha
+
+theorem foldl_timeout_noSession (l : List RSession) (m : Net) (y : Nat) :
+    ∀ s ∈ l, ∀ a, (l.foldl (fun m s => timeoutRemote m y s) m).node y = some a → a.hasSession s.id = false := by
+  induction l generalizing m with
+  | nil => intro s h; cases h
+  | cons c t ih =>
+    intro s hs a ha
+    simp only [List.foldl_cons] at ha
+    rcases List.mem_cons.mp hs with rfl | hs
+    · have hshr := shr_foldl (fun m s => timeoutRemote m y s) (fun m s => shr_timeoutRemote m y s) t (timeoutRemote m y s)
+      obtain ⟨a1, ha1, h1⟩ := hshr.back ha
+      exact noSession_of_shr h1 _ (timeoutRemote_noSession m y s a1 ha1)
+    · exact ih _ s hs a ha
+
+theorem preTimestepNode_expired (m : Net) (y : Nat) (bm : Node) (s : RSession) (hbm : m.node y = some bm) (hs : s ∈ bm.rem)
+    (hexp : s.last + bm.remoteTimeout ≤ m.time) (a : Node) (ha : (preTimestepNode m y).node y = some a) :
+    a.hasSession s.id = false := by
+  unfold preTimestepNode at ha
+  simp only [hbm] at ha
+  exact foldl_timeout_noSession _ _ y s (List.mem_filter.mpr ⟨hs, by simpa using hexp⟩) a ha
+
+theorem not_mem_of_noSession {a : Node} {s : RSession} (h : a.hasSession s.id = false) : s ∉ a.rem := by
+  intro hs
+  rw [(hasSession_iff a s.id).mpr (List.mem_map_of_mem hs)] at h; cases h
+
+theorem foldl_pre_expired (l : List Nat) (y : Nat) (s : RSession) (T rt : Nat) (hexp : s.last + rt ≤ T) :
+    ∀ m : Net, m.time = T → (∀ bm, m.node y = some bm → bm.remoteTimeout = rt) → y ∈ l →
+      ∀ a, (l.foldl preTimestepNode m).node y = some a → s ∉ a.rem := by
+  induction l with
+  | nil => intro m _ _ h; cases h
+  | cons j t ih =>
+    intro m hT hrt hy a ha
+    simp only [List.foldl_cons] at ha
+    have hrest := shr_foldl preTimestepNode shr_preTimestepNode t (preTimestepNode m j)
+    by_cases hj : j = y
+    · subst hj
+      obtain ⟨a1, ha1, h1⟩ := hrest.back ha
+      obtain ⟨bm, hbm, h0⟩ := (shr_preTimestepNode m j).back ha1
+      intro hs
+      have hs1 : s ∈ a1.rem := h1.rem.subset hs
+      have hsm : s ∈ bm.rem := h0.rem.subset hs1
+      have := preTimestepNode_expired m j bm s hbm hsm (by rw [hrt bm hbm, hT]; exact hexp) a1 ha1
+      exact not_mem_of_noSession this hs1
+    · have hy' : y ∈ t := by
+        rcases List.mem_cons.mp hy with h | h
+        · exact (hj h.symm).elim
+        · exact h
+      refine ih (preTimestepNode m j) ((shr_preTimestepNode m j).time.trans hT) ?_ hy' a ha
+      intro b1 hb1
+      obtain ⟨bm, hbm, h0⟩ := (shr_preTimestepNode m j).back hb1
+      rw [h0.remoteTimeout]; exact hrt bm hbm
+
+/-- **C16, time-out (remote).** A remote session of `y` whose last activity `t₀` satisfies `t₀ + timeout ≤ t + 1` is gone
+after the tick that makes the time `t + 1` (the `pre_timestep` of that tick) — in particular a session idle since `t₀`
+does not survive the `pre_timestep` of tick `t₀ + timeout`. -/
+theorem C16_timeout_expired_gone (n : Net) (y : Nat) (b : Node) (s : RSession) (hb : n.node y = some b) (_hs : s ∈ b.rem)
+    (hexp : s.last + b.remoteTimeout ≤ n.time + 1) (a : Node) (ha : (tick n).node y = some a) : s ∉ a.rem := by
+  unfold tick at ha
+  dsimp only at ha
+  refine foldl_pre_expired _ y s (n.time + 1) b.remoteTimeout hexp _ rfl ?_ ?_ a ha
+  · intro bm hbm
+    simp only [Net.node, List.getElem?_map] at hbm hb
+    rw [hb] at hbm
+    simp only [Option.map_some, Option.some.injEq] at hbm
+    subst hbm
+    exact data_remoteTimeout (applyTimestep_data b)
+  · simp only [List.length_map, List.mem_range]
+    exact node_some_lt hb
+
+
+/-- a time-out on another node never touches the remote sessions of `y` -/
+theorem timeoutRemote_rem_other (m : Net) (j y : Nat) (s : RSession) (hjy : j ≠ y) (b : Node) (hb : m.node y = some b) :
+    ∃ a, (timeoutRemote m j s).node y = some a ∧ a.rem = b.rem ∧ a.remoteTimeout = b.remoteTimeout := by
+  unfold timeoutRemote
+  dsimp only
+  split
+  · by_cases hp : s.peer = y
+    · exact ⟨b.dropConn s.id, by simp [hp, hjy, hb], rfl, rfl⟩
+    · exact ⟨b, by simp [hp, hjy, hb], rfl, rfl⟩
+  · exact ⟨b, by simp [hjy, hb], rfl, rfl⟩
+
+theorem foldl_timeout_rem_other (l : List RSession) (m : Net) (j y : Nat) (hjy : j ≠ y) (b : Node) (hb : m.node y = some b) :
+    ∃ a, (l.foldl (fun m s => timeoutRemote m j s) m).node y = some a ∧ a.rem = b.rem ∧ a.remoteTimeout = b.remoteTimeout := by
+  induction l generalizing m b with
+  | nil => exact ⟨b, hb, rfl, rfl⟩
+  | cons c t ih =>
+    obtain ⟨a1, ha1, h1, h1'⟩ := timeoutRemote_rem_other m j y c hjy b hb
+    obtain ⟨a, ha, h2, h2'⟩ := ih (timeoutRemote m j c) a1 ha1
+    exact ⟨a, ha, h2.trans h1, h2'.trans h1'⟩
+
+theorem preTimestepNode_rem_other (m : Net) (j y : Nat) (hjy : j ≠ y) (b : Node) (hb : m.node y = some b) :
+    ∃ a, (preTimestepNode m j).node y = some a ∧ a.rem = b.rem ∧ a.remoteTimeout = b.remoteTimeout := by
+  unfold preTimestepNode
+  split
+  · exact ⟨b, hb, rfl, rfl⟩
+  · dsimp only
+    apply foldl_timeout_rem_other _ _ j y hjy b
+    split
+    · simp [hjy, hb]
+    · exact hb
+
+theorem timeoutRemote_keeps (m : Net) (y : Nat) (s' s : RSession) (hne : s'.id ≠ s.id) (b : Node) (hb : m.node y = some b)
+    (hs : s ∈ b.rem) :
+    ∃ a, (timeoutRemote m y s').node y = some a ∧ s ∈ a.rem ∧ a.rem.Sublist b.rem ∧ a.remoteTimeout = b.remoteTimeout := by
+  have hmem : s ∈ ((b.dropSession s'.id).dropConn s'.id).rem := by
+    simp only [Node.dropConn, Node.dropSession]
+    exact List.mem_filter.mpr ⟨hs, by simpa using fun h => hne h.symm⟩
+  have hsub : ((b.dropSession s'.id).dropConn s'.id).rem.Sublist b.rem := by
+    simp only [Node.dropConn, Node.dropSession]; exact List.filter_sublist
+  unfold timeoutRemote
+  dsimp only
+  split
+  · by_cases hp : s'.peer = y
+    · exact ⟨((b.dropSession s'.id).dropConn s'.id).dropConn s'.id, by simp [hp, hb], hmem, hsub, rfl⟩
+    · exact ⟨(b.dropSession s'.id).dropConn s'.id, by simp [hp, hb], hmem, hsub, rfl⟩
+  · exact ⟨(b.dropSession s'.id).dropConn s'.id, by simp [hb], hmem, hsub, rfl⟩
+
+theorem foldl_timeout_keeps (l : List RSession) (m : Net) (y : Nat) (s : RSession) (hne : ∀ s' ∈ l, s'.id ≠ s.id) (b : Node)
+    (hb : m.node y = some b) (hs : s ∈ b.rem) :
+    ∃ a, (l.foldl (fun m s => timeoutRemote m y s) m).node y = some a ∧ s ∈ a.rem ∧ a.rem.Sublist b.rem ∧
+      a.remoteTimeout = b.remoteTimeout := by
+  induction l generalizing m b with
+  | nil => exact ⟨b, hb, hs, List.Sublist.refl _, rfl⟩
+  | cons c t ih =>
+    obtain ⟨a1, ha1, hs1, hsub1, hrt1⟩ := timeoutRemote_keeps m y c s (hne c (List.mem_cons_self ..)) b hb hs
+    obtain ⟨a, ha, hs2, hsub2, hrt2⟩ := ih (timeoutRemote m y c) (fun s' h => hne s' (List.mem_cons_of_mem _ h)) a1 ha1 hs1
+    exact ⟨a, ha, hs2, hsub2.trans hsub1, hrt2.trans hrt1⟩
+
+theorem foldl_pre_keeps (l : List Nat) (y : Nat) (s : RSession) (T rt : Nat) (b0 : Node)
+    (hne : ∀ s' ∈ b0.rem, s'.last + rt ≤ T → s'.id ≠ s.id) :
+    ∀ (m : Net) (b : Node), m.time = T → m.node y = some b → b.remoteTimeout = rt → b.rem.Sublist b0.rem → s ∈ b.rem →
+      ∃ a, (l.foldl preTimestepNode m).node y = some a ∧ s ∈ a.rem := by
+  induction l with
+  | nil => intro m b _ hb _ _ hs; exact ⟨b, hb, hs⟩
+  | cons j t ih =>
+    intro m b hT hb hrt hsub hs
+    simp only [List.foldl_cons]
+    have hT' : (preTimestepNode m j).time = T := (shr_preTimestepNode m j).time.trans hT
+    by_cases hj : j = y
+    · subst hj
+      have : ∃ a, (preTimestepNode m j).node j = some a ∧ s ∈ a.rem ∧ a.rem.Sublist b.rem ∧ a.remoteTimeout = b.remoteTimeout := by
+        unfold preTimestepNode
+        simp only [hb]
+        have hne' : ∀ s' ∈ b.expired m.time, s'.id ≠ s.id := by
+          intro s' hs'
+          obtain ⟨hm, he⟩ := List.mem_filter.mp hs'
+          exact hne s' (hsub.subset hm) (by rw [← hrt, ← hT]; simpa using he)
+        split
+        · exact foldl_timeout_keeps _ _ j s hne' b.clearLoc (by simp [hb]) hs
+        · exact foldl_timeout_keeps _ _ j s hne' b hb hs
+      obtain ⟨a1, ha1, hs1, hsub1, hrt1⟩ := this
+      exact ih _ a1 hT' ha1 (hrt1.trans hrt) (hsub1.trans hsub) hs1
+    · obtain ⟨a1, ha1, hr1, hrt1⟩ := preTimestepNode_rem_other m j y hj b hb
+      exact ih _ a1 hT' ha1 (hrt1.trans hrt) (hr1 ▸ hsub) (hr1 ▸ hs)
+
+/-- **C16, time-out is exact (not earlier).** A remote session of `y` with `t₀ + timeout > t + 1` survives the tick that
+makes the time `t + 1`, provided no *expired* session of `y` carries the same id (ids are unique in every reachable state:
+they are fresh, `C16_remote_session_only_by_valid_login`).  With `C16_timeout_expired_gone`: a session idle since `t₀`
+ends exactly at the `pre_timestep` of tick `t₀ + timeout`. -/
+theorem C16_timeout_not_earlier (n : Net) (y : Nat) (b : Node) (s : RSession) (hb : n.node y = some b) (hs : s ∈ b.rem)
+    (_hlive : n.time + 1 < s.last + b.remoteTimeout)
+    (hne : ∀ s' ∈ b.rem, s'.last + b.remoteTimeout ≤ n.time + 1 → s'.id ≠ s.id) :
+    ∃ a, (tick n).node y = some a ∧ s ∈ a.rem := by
+  unfold tick
+  dsimp only
+  have hb1 : ({ n with time := n.time + 1, nodes := n.nodes.map Node.applyTimestep } : Net).node y = some b.applyTimestep := by
+    simp only [Net.node, List.getElem?_map] at hb ⊢
+    rw [hb]; rfl
+  have hd := applyTimestep_data b
+  refine foldl_pre_keeps _ y s (n.time + 1) b.remoteTimeout b hne _ b.applyTimestep rfl hb1 (data_remoteTimeout hd) ?_ ?_
+  · rw [data_rem hd]; exact List.Sublist.refl _
+  · rw [data_rem hd]; exact hs
+
+
 end Primaite.Session
